@@ -632,6 +632,8 @@ func (c *Ctx) definitelyNonNil(v ssa.Value, depth int) bool {
 // that builds the system dictionary: make, a composite literal, a library clone, a module function
 // all of whose results are fresh), "shared:<what>" (a package-level variable or something derived
 // from one: one object for every interpreter of the process), or "?" (not decided).
+var freshPhiBusy = map[*ssa.Phi]bool{}
+
 func (c *Ctx) freshComposite(v ssa.Value, depth int) string {
 	if depth > 6 {
 		return "?"
@@ -648,6 +650,10 @@ func (c *Ctx) freshComposite(v ssa.Value, depth int) string {
 		return c.freshComposite(x.X, depth+1)
 	case *ssa.MakeMap, *ssa.MakeSlice:
 		return "fresh"
+	case *ssa.Const:
+		if x.Value == nil {
+			return "fresh" // nil: what is appended to it is allocated then
+		}
 	case *ssa.Global:
 		return "shared:the package-level variable " + x.Name()
 	case *ssa.Alloc:
@@ -686,8 +692,14 @@ func (c *Ctx) freshComposite(v ssa.Value, depth int) string {
 			}
 		}
 	case *ssa.Phi:
+		// a value grown in a loop (`a = append(a, x)`): the phi met again on its own back edge adds nothing
+		if freshPhiBusy[x] {
+			return "fresh"
+		}
+		freshPhiBusy[x] = true
+		defer delete(freshPhiBusy, x)
 		for _, e := range x.Edges {
-			if s := c.freshComposite(e, depth+1); s != "fresh" {
+			if s := c.freshComposite(e, depth); s != "fresh" {
 				return s
 			}
 		}
@@ -1455,6 +1467,9 @@ func (c *Ctx) lookupByEvaluation(ia *interpAnchors, f *ssa.Function, isOp bool) 
 //	/d      defined nowhere                                  → stays
 //	/e      userdict: an integer                             → stays
 //	7       not a name                                       → stays
+//	c       (an operator token) shadowed like /c             → stays
+//	f       (an operator token) userdict only: operator f    → replaced by the operator
+//	d       (an operator token) defined nowhere              → stays
 //	{a {…}} a nested procedure that contains the outer one   → bound likewise, once
 //
 // Whether the worker recurses or keeps a work list, is a method or a function, calls `load` or
@@ -1469,7 +1484,7 @@ func (c *Ctx) bindByEvaluation(ia *interpAnchors) (bad []string, decided bool, w
 	opTok := func(s string) sv { return sv{k: svString, s: s, op: "Operator"} }
 	inner := ev.newList([]sv{obj("Name", "a"), {}})
 	inner.op = "Procedure"
-	outer := ev.newList([]sv{obj("Name", "a"), opTok("b"), obj("Name", "c"), obj("Name", "d"), obj("Name", "e"), obj("Integer", "7"), inner})
+	outer := ev.newList([]sv{obj("Name", "a"), opTok("b"), obj("Name", "c"), obj("Name", "d"), obj("Name", "e"), obj("Integer", "7"), inner, opTok("c"), opTok("f"), opTok("d")})
 	outer.op = "Procedure"
 	ev.lists[inner.s][1] = outer
 	ev.mem["intp.Stack"] = ev.newList([]sv{obj("Integer", "keep"), outer})
@@ -1479,7 +1494,7 @@ func (c *Ctx) bindByEvaluation(ia *interpAnchors) (bad []string, decided bool, w
 	ev.mem["intp.UserDict"] = userD
 	content := map[string]map[string]sv{
 		sysD.s:  {"a": obj("builtin", "add"), "b": obj("builtin", "sub"), "c": obj("builtin", "c")},
-		userD.s: {"c": obj("Procedure", "userc"), "e": obj("Integer", "1")},
+		userD.s: {"c": obj("Procedure", "userc"), "e": obj("Integer", "1"), "f": obj("builtin", "f")},
 	}
 	keyName := func(k sv) (string, bool) {
 		switch {
@@ -1614,9 +1629,10 @@ func (c *Ctx) bindByEvaluation(ia *interpAnchors) (bad []string, decided bool, w
 		}
 		return out
 	}
-	wantOuter := []string{"builtin:add", "builtin:sub", "Name:c", "Name:d", "Name:e", "Integer:7", "{inner}"}
+	wantOuter := []string{"builtin:add", "builtin:sub", "Name:c", "Name:d", "Name:e", "Integer:7", "{inner}", opTok("c").String(), "builtin:f", opTok("d").String()}
 	wantInner := []string{"builtin:add", "{outer}"}
-	what := []string{"the name a (an operator in systemdict)", "the operator token b", "the name c (an operator in systemdict, redefined as a procedure in userdict)", "the name d (defined nowhere)", "the name e (an integer in userdict)", "the integer 7", "the nested procedure"}
+	what := []string{"the name a (an operator in systemdict)", "the operator token b", "the name c (an operator in systemdict, redefined as a procedure in userdict)", "the name d (defined nowhere)", "the name e (an integer in userdict)", "the integer 7", "the nested procedure",
+		"the operator token c (an operator in systemdict, redefined as a procedure in userdict)", "the operator token f (an operator defined in userdict only)", "the operator token d (defined nowhere)"}
 	gotOuter, gotInner := show(outer), show(inner)
 	if len(gotOuter) != len(wantOuter) {
 		bad = append(bad, fmt.Sprintf("the procedure has %d elements after bind, %d before", len(gotOuter), len(wantOuter)))
